@@ -380,14 +380,16 @@ def append(ex, ins, args):
         vc.assume_forall(ex.reach, lambda i, a_new=a_new, A=A, T=T, ls=ls, n=n, soff=soff, toff=toff:
                          '(=> (and (<= 0 %s) (< %s %s)) (= (select %s %s) (ite (< %s %s) (select %s (+ %s %s)) (select %s (+ %s (- %s %s))))))'
                          % (i, i, n, a_new, i, i, ls, A, soff, i, T, toff, i, ls))
-    E2 = ite(inplace, '(store %s (s.arr %s) %s)' % (E, s.term, a_in), '(store %s %s %s)' % (E, newarr, a_new))
+    # (appending nothing in place leaves the element heap as it is)
+    E2 = ite(inplace, ite('(= %s %s)' % (n, ls), E, '(store %s (s.arr %s) %s)' % (E, s.term, a_in)), '(store %s %s %s)' % (E, newarr, a_new))
     ex.st.set(hn, vc.define(hn, hs, E2))
     res = ite(inplace, '(mkslice (s.arr %s) (s.off %s) %s (s.cap %s))' % (s.term, s.term, n, s.term),
               '(mkslice %s 0 %s %s)' % (newarr, n, newcap))
     # frame: an in-place append writes the backing array of s
     top = ex.top
     if top.contract is not None and top.contract.assigns is not None:
-        alts = [not_(inplace), '(>= (s.arr %s) %s)' % (s.term, top.entry_state.alloc)]
+        # (appending nothing writes nothing)
+        alts = [not_(inplace), '(= %s %s)' % (n, ls), '(>= (s.arr %s) %s)' % (s.term, top.entry_state.alloc)]
         for (h2, r2) in top.assign_set():
             if h2 == hn:
                 alts.append('true' if r2 is None else eq('(s.arr %s)' % s.term, r2))
